@@ -364,6 +364,19 @@ pub fn todrange(l: &[Sx]) -> String {
         chk(v == (t as f64) / 86_400_000.0, format!("encode_time({h},{mi},{s},{ms}) is exactly ms/86400000"));
         let ok = comp("hour", v) == Some(h as f64) && comp("minute", v) == Some(mi as f64) && comp("second", v) == Some(s as f64) && comp("millisecond", v) == Some(ms as f64);
         chk(ok, format!("components of {h}:{mi}:{s}.{ms} decode to {:?}:{:?}:{:?}.{:?}", comp("hour", v), comp("minute", v), comp("second", v), comp("millisecond", v)));
+        // text forms at millisecond resolution: printing with %.3f and parsing it back give the same components / the same number
+        if t % 13 == 0 {
+            let txt = format!("{:02}:{:02}:{:02}.{:03}", h, mi, s, ms);
+            let fmt = st("%H:%M:%S%.3f");
+            chk(matches!(call("time_to_string", &[fmt.clone(), num(v)]), Ok(Value::String(g)) if g == txt), format!("time_to_string(%.3f) of {txt}"));
+            chk(as_num(&call("string_to_time", &[st(&txt), fmt.clone()])) == Some(v), format!("string_to_time({txt}, %.3f) is the number encode_time produces"));
+            if ms == 0 {
+                let plain = format!("{:02}:{:02}:{:02}", h, mi, s);
+                chk(as_num(&call("string_to_time", &[st(&plain)])) == Some(v), format!("string_to_time({plain}) is the number encode_time produces"));
+                chk(as_num(&call("string_to_datetime", &[st(&format!("2024-02-29 {plain}"))])) == as_num(&call("encode_date", &[num(2024.0), num(2.0), num(29.0)])).map(|d| ((d * 86_400_000.0 + t as f64) / 86_400_000.0)),
+                    format!("string_to_datetime(2024-02-29 {plain}) is date + time"));
+            }
+        }
         // the same time of day on a date far from the epoch (as a timestamp: total milliseconds / 86400000)
         if t % 97 == 0 {
             for day in [19000i64, -25000, 2_900_000, -700_000] {
@@ -608,4 +621,31 @@ pub fn reinv_case(l: &[Sx]) -> String {
     let all_err = rs.iter().all(|r| matches!(r, Err(NativeError::CustomError(_))));
     let none_err = rs.iter().all(|r| r.is_ok());
     format!("R={} ## regex={}", if invalid { "invalid" } else { "valid" }, if (invalid && all_err) || (!invalid && none_err) { "holds" } else { "FAILS" })
+}
+
+// ---------------- C14 / C16: parsing with an explicit format string against chrono used directly ----------------
+// (datefmt id (s text) (s format)): string_to_date / string_to_time / string_to_datetime with a custom format must give exactly what chrono's own parser gives for
+// these two arguments - a value determined by the arguments alone (no current year, no locale, no clock) - or an error value when chrono rejects them
+pub fn datefmt_case(l: &[Sx]) -> String {
+    let (text, fmt) = (string(&l[2]), string(&l[3]));
+    let mut why: Vec<String> = vec![];
+    let mut chk = |ok: bool, what: &str| {
+        if !ok && why.len() < 3 {
+            why.push(what.replace(' ', "_"));
+        }
+    };
+    let ms = 86_400_000.0f64;
+    let want_d = std::panic::catch_unwind(|| chrono::NaiveDate::parse_from_str(&text, &fmt).ok().and_then(|d| d.and_hms_opt(0, 0, 0)).map(|dt| dt.and_utc().timestamp_millis() as f64 / ms)).unwrap_or(None);
+    let want_t = std::panic::catch_unwind(|| chrono::NaiveTime::parse_from_str(&text, &fmt).ok().map(|t| chrono::NaiveDate::default().and_time(t).and_utc().timestamp_millis() as f64 / ms)).unwrap_or(None);
+    let want_dt = std::panic::catch_unwind(|| chrono::NaiveDateTime::parse_from_str(&text, &fmt).ok().map(|dt| dt.and_utc().timestamp_millis() as f64 / ms)).unwrap_or(None);
+    let got = |name: &str| match call(name, &[st(&text), st(&fmt)]) {
+        Ok(Value::Number(x)) => Some(x),
+        _ => None,
+    };
+    let (gd, gt, gdt) = (got("string_to_date"), got("string_to_time"), got("string_to_datetime"));
+    chk(gd == want_d, "string_to_date(text, format) is what the parser gives for these arguments");
+    chk(gt == want_t, "string_to_time(text, format) is what the parser gives for these arguments");
+    chk(gdt == want_dt, "string_to_datetime(text, format) is what the parser gives for these arguments");
+    let show = |x: Option<f64>| x.map(|v| format!("{v:?}")).unwrap_or("err".into());
+    format!("R=d:{},t:{},dt:{} ## fmtref={} why={}", show(gd), show(gt), show(gdt), if why.is_empty() { "holds" } else { "FAILS" }, if why.is_empty() { "-".to_string() } else { why.join(";") })
 }
